@@ -1,6 +1,7 @@
 package main
 
 import (
+	"runtime/pprof"
 	"encoding/json"
 	"flag"
 	"fmt"
@@ -161,9 +162,17 @@ func main() {
 		fmt.Fprintln(os.Stderr, "usage: gpverify check|dump|gen ...")
 		os.Exit(2)
 	}
+	if pf := os.Getenv("GPV_CPUPROFILE"); pf != "" {
+		if fh, err := os.Create(pf); err == nil {
+			pprof.StartCPUProfile(fh)
+			defer pprof.StopCPUProfile()
+		}
+	}
 	switch os.Args[1] {
 	case "check":
-		os.Exit(cmdCheck(os.Args[2:]))
+		rc := cmdCheck(os.Args[2:])
+		pprof.StopCPUProfile()
+		os.Exit(rc)
 	case "dump":
 		cmdDump(os.Args[2:])
 	case "gen":
